@@ -42,14 +42,14 @@ def im1_im2(ctx: Ctx):
                 continue
             seen.add(key)
             ctx.instance(rule)
-            fresh = e.obj[0] == "new"
+            fresh = _fresh(model, e.obj)
             ok = fresh or fi.qual == "_url.URL.__setstate__"
             ctx.ob(rule, fi.qual, f"{show(e.obj)}.{e.attr} = ...", ok,
                    f"slot {e.attr} of an existing object ({show(e.obj)}) is assigned: URL values must never change after creation",
                    where(fi, e.node), sample="object.__new__(URL) in the same function" if fresh else "__setstate__")
         # other attribute stores on self/other URLs
         for e in r.by_kind("store_attr"):
-            if e.attr in SLOTS or e.obj[0] == "new":
+            if e.attr in SLOTS or _fresh(model, e.obj):
                 continue
             if e.obj[0] == "param" and fi.cls == "URL":
                 ctx.instance(rule)
@@ -86,6 +86,44 @@ def _fresh(model, v, depth=0):
             rr = analyze(model, r[1])
             return bool(rr.returns) and all(_fresh(model, x, depth + 1) for _s, x, _n in rr.returns)
     return False
+
+
+def fresh_view(model, state, obj, res=None):
+    """{attribute: term} of an object created for this call, as the caller sees it: the fields of object.__new__(...)
+    created here, or - for the result of an un-memoised package constructor whose every return is such an object - the
+    constructor's fields with its parameters replaced by the call's arguments, overlaid with what the caller stored
+    afterwards. None when `obj` is not (known to be) fresh."""
+    if obj[0] == "new":
+        return {a: v for (o, a), v in state.heap.items() if o == obj}
+    if not _fresh(model, obj):
+        return None
+    r = model.resolve_global(obj[1][1], obj[1][2])
+    callee = r[1]
+    rr = analyze(model, callee)
+    params = [p for p in callee.params if p not in ("self", "cls")]
+    bind = {("param", p): a for p, a in zip(params, [x for x in obj[2] if x[0] != "star"])}
+    bind.update({("param", k): v for k, v in obj[3] if k})
+    view = None
+    for s2, v, _n in rr.returns:
+        if v[0] != "new":
+            return None        # nested constructors are not followed
+        cur = {a: _subst(t, bind) for (o, a), t in s2.heap.items() if o == v}
+        if view is not None and cur != view:
+            return None
+        view = cur
+    if view is None:
+        return None
+    view = dict(view)
+    view.update({a: v for (o, a), v in state.heap.items() if o == obj})
+    return view
+
+
+def _subst(t, bind):
+    if t in bind:
+        return bind[t]
+    if isinstance(t, tuple):
+        return tuple(_subst(x, bind) if isinstance(x, tuple) else x for x in t)
+    return t
 
 
 def occurrences(t, target, parent=None, out=None):
@@ -179,11 +217,11 @@ def im4(ctx: Ctx):
                     if t[0] == "global" and (t[1], t[2]) in rebound and not _is_memo_callable(model, t):
                         problems.append(f"reads the re-bound module global {t[2]}")
         for e in r.by_kind("store_attr"):
-            if e.obj[0] != "new":
+            if not _fresh(model, e.obj):
                 problems.append(f"stores {show(e.obj)}.{e.attr}")
         for e in r.by_kind("store_sub"):
             root = cache_root(e.base)
-            if root[0] in ("dict", "list", "call", "new", "tuple", "comp"):
+            if _local_container(r, root):
                 continue       # a local container
             if root == ("attr", ("param", "self"), "_cache") and e.index[0] == "const" and isinstance(e.index[1], str):
                 continue
@@ -195,6 +233,21 @@ def im4(ctx: Ctx):
         ctx.ob(rule, fi.qual, f"memoised {fi.memo or 'lru_cache alias'}", not problems,
                "memoised code is not a pure function of its key: " + "; ".join(sorted(set(problems))),
                where(fi, fi.node), sample="reads only parameters / slots / memoised members / constants")
+
+
+def _local_container(r, root, depth=0):
+    """A container created inside the function: a display / constructor call / comprehension / `[x] * n`, or a loop-carried
+    variable all of whose values are."""
+    while root[0] == "mut":
+        root = root[1]
+    if root[0] in ("dict", "list", "call", "new", "tuple", "comp", "set"):
+        return True
+    if root[0] == "binop" and root[1] in ("Mult", "Add"):
+        return _local_container(r, root[2], depth + 1) or _local_container(r, root[3], depth + 1)
+    if root[0] == "phi" and depth < 4:
+        srcs = [x for x in r.phis.get((root[1], root[2]), ()) if cache_root(x) != root]
+        return bool(srcs) and all(_local_container(r, x, depth + 1) for x in srcs)
+    return False
 
 
 def _is_memo_callable(model, t):
